@@ -1,0 +1,31 @@
+//go:build verif
+
+package window
+
+import (
+	"time"
+
+	"github.com/rulego/streamsql/types"
+)
+
+// Accessors for the verification harness (/verif, property C17). Compiled only with -tags verif.
+
+// VerifProcessRow runs the consumer goroutine's handler for one row on the calling
+// goroutine (Start() is not called), with an explicit row timestamp. A firing reaches
+// the configured callback before this returns.
+func (gw *GlobalWindow) VerifProcessRow(data map[string]any, ts time.Time) {
+	gw.processRow(types.Row{Data: data, Timestamp: ts})
+}
+
+// VerifCloseInputAndWait is a barrier for the free-running window: it closes the input
+// channel, so the consumer goroutine started by Start() handles every row queued by
+// earlier Add calls in FIFO order and then exits; it returns once that has happened.
+// No Add may follow.
+func (gw *GlobalWindow) VerifCloseInputAndWait() {
+	close(gw.triggerChan)
+	<-gw.ctx.Done()
+}
+
+// VerifRewrittenPredicate returns the TRIGGER WHEN predicate after aggregate calls were
+// replaced by placeholders (debugging aid, never compared).
+func (gw *GlobalWindow) VerifRewrittenPredicate() string { return gw.rewrittenPredicate }
